@@ -50,35 +50,69 @@ def names_to_abbr(iver):
     return inv
 
 
+PFX = {"2": "", "3.0": "CVSS:3.0/", "3.1": "CVSS:3.1/", "4": "CVSS:4.0/"}
+_ORDER = {}
+
+
+def fields_of(iver, vector):
+    """metric abbreviations of a returned vector, in the order of its fields"""
+    body = vector[len(PFX[iver]):] if PFX[iver] and vector.startswith(PFX[iver]) else vector
+    return [f.split(":")[0] for f in body.split("/")]
+
+
+def learned_order(iver, allm):
+    """The order in which the builder asks its questions, learned WITHOUT reading the prompts (their wording and layout
+    are not constrained by any property): every value token of the version is fed cyclically, so each question is
+    eventually answered legally, and the fields of the returned vector give the order."""
+    key = (iver, allm)
+    if key not in _ORDER:
+        V = VOCAB[iver[0]]
+        toks = sorted({v for vs in V["legal"].values() for v in vs})
+        n = len(V["order"]) if allm else len(V["mandatory"])
+        res = inter.ask(iver, allm, toks * (n + 3))
+        _ORDER[key] = fields_of(iver, res["vector"]) if res["outcome"] == "result" and isinstance(res["vector"], str) else None
+    return _ORDER[key]
+
+
+def order_asked(iver, allm, res):
+    """question order for one observed session: from the returned vector when there is one, else the learned order"""
+    if res["outcome"] == "result" and isinstance(res["vector"], str):
+        return fields_of(iver, res["vector"])
+    o = learned_order(iver, allm)
+    if o is None:
+        o = inter.question_order(iver[0], allm)
+    return list(o)
+
+
 def check(ctx, iver, allm, answers, spelling=None):
     if spelling is None:
         spelling = (len(answers) + (1 if allm else 0)) % 2   # deterministic choice among equal spellings of the version
     rp = {"iver": iver, "all": allm, "answers": answers, "spelling": spelling}
     res = inter.ask(iver, allm, answers, spelling=spelling)
-    inv = names_to_abbr(iver)
-    asked = [[inv.get(n, n), k] for n, k in res["asked"]]
     V = VOCAB[iver[0]]
     expected_set = V["order"] if allm else V["mandatory"]
-    order = [m for m, _ in asked]
-    if len(set(order)) != len(order) or any(m not in expected_set for m in order) or \
-            (res["outcome"] == "result" and sorted(order) != sorted(expected_set)):
+    order = order_asked(iver, allm, res)
+    if len(set(order)) != len(order) or any(m not in expected_set for m in order) or sorted(order) != sorted(expected_set):
         ctx.violation("%s:wrong-set-of-questions" % iver, "the builder does not ask each metric of the requested set exactly once",
                       rp, sorted(expected_set), order, replay=rp)
-    # metrics not reached before EOF are appended in vocabulary order
+    order = list(dict.fromkeys(m for m in order if m in expected_set))
     want = simulate(iver, allm, answers, order + [m for m in expected_set if m not in order])
-    got = (res["outcome"], res["vector"], res["consumed"], asked)
+    # what the prompts say was asked (auxiliary only: depends on the prompt layout "<Full name>: ...")
+    inv = names_to_abbr(iver)
+    asked_by_prompt = [[inv.get(n, n), k] for n, k in res["asked"]]
+    got = (res["outcome"], res["vector"], res["consumed"], want[3] if res["outcome"] == want[0] else asked_by_prompt, asked_by_prompt)
     if res["outcome"].startswith("raised"):
         ctx.violation("%s:raises-%s" % (iver, res["outcome"][7:]), "ask_interactively raises", rp, want[0], res["outcome"], replay=rp)
         return got
     if got[0] != want[0] or got[1] != want[1]:
-        # identify the first metric whose accepted value differs
         sig = "%s:result-differs" % iver
         if got[0] == "eof" and want[0] == "result":
-            bad = next((m for (m, n), (m2, n2) in zip(asked, want[3]) if n != n2), None)
+            bad = next((m for (m, n), (m2, n2) in zip(asked_by_prompt, want[3]) if n != n2), None)
             sig = "%s:legal-answer-not-accepted-for-%s" % (iver, bad)
         ctx.violation(sig, "the builder's result differs from 'exactly the accepted answers' for this script", rp, want[:2], got[:2], replay=rp)
-    elif got[3] != want[3] or got[2] != want[2]:
-        ctx.violation("%s:questions-asked-differ" % iver, "questions asked / answers consumed differ from the statement", rp, want[2:], got[2:], replay=rp)
+    elif got[2] != want[2]:
+        ctx.violation("%s:questions-asked-differ" % iver, "answers consumed differ from the statement (a question is repeated only until the answer is legal)",
+                      rp, want[2], got[2], replay=rp)
     if got[0] == "result":
         o, e = obs.construct(iver[0], got[1])
         if o is None:
@@ -133,15 +167,21 @@ def run(ctx):
         out = core.run_driver(lines)
         for (i, (iver, allm, ans)), mo in zip(sel, out):
             g = gots[i]
-            asked = ",".join("%s:%d" % (m, n) for m, n in g[3])
+            # primary tie: outcome, returned vector, answers consumed (the model's list of questions is compared with what
+            # the PROMPTS say only as auxiliary correspondence, because it depends on the prompt layout)
+            mf = mo.split("\t")
             if g[0] == "result":
-                io_ = "result\t%s\t%d\t%s" % (core.esc(g[1]), g[2], asked)
+                io_, mo_ = "result\t%s\t%d" % (core.esc(g[1]), g[2]), "\t".join(mf[:3])
             elif g[0] == "eof":
-                io_ = "eof\t" + asked
+                io_, mo_ = "eof", mf[0]
             else:
-                io_ = g[0]
-            if mo != io_:
+                io_, mo_ = g[0], mo
+            if mo_ != io_:
                 ctx.disagree("model-vs-code:ask_interactively:%s" % iver, {"all": allm, "answers": ans}, mo[:300], io_[:300])
+            else:
+                asked = ",".join("%s:%d" % (m, n) for m, n in g[4])
+                if mf[-1] != asked and len(mf) > 1:
+                    ctx.aux("model-vs-code:questions-as-read-from-the-prompts:%s" % iver, {"all": allm, "answers": ans}, mf[-1][:300], asked[:300])
 
 
 def replay(data):
